@@ -420,6 +420,12 @@ def main():
     with open(os.path.join(outdir, "meta.json.tmp"), "w") as f:
         json.dump(meta, f, indent=1, default=str)
     os.replace(os.path.join(outdir, "meta.json.tmp"), os.path.join(outdir, "meta.json"))
+    # With number_of_processors > 1 the ParallelMap workers are non-daemon processes that wait
+    # for tasks for ever; multiprocessing's exit handler would join them unless the mesh has
+    # been garbage collected first (the hypnotoad scripts `del eq, mesh; gc.collect()` for the
+    # same reason).  Everything is on disk: leave without running exit handlers.
+    log.flush()
+    os._exit(0)
 
 
 if __name__ == "__main__":
